@@ -22,7 +22,7 @@ let char_of_kind = function KCall -> "c" | KSignal -> "s" | KReply -> "r" | KErr
 (* the same message the harness builds from the spec *)
 let msg_of_spec spec =
   match String.split_on_char '.' spec with
-  | [k; serial; reply; member; sender; iface] ->
+  | k :: serial :: reply :: member :: sender :: iface :: _ ->   (* further fields (flags, byte order, destination) are not looked at by RpcConn *)
       let kind = kind_of_char k in
       let reply = int_of_string reply in
       { r_kind = kind;
@@ -60,7 +60,8 @@ let rec drop n l = if n = 0 then l else match l with [] -> [] | _ :: t -> drop (
 let big = nat_of_int 1000
 
 let run fidx ops =
-  let filter = filter_family (n_of_int fidx) in
+  (* index 16: the filter RpcConn::new installs (accepts everything) = table entry 0; `sf:<j>` installs entry j from then on *)
+  let filter_ref = ref (filter_family (n_of_int (if fidx = 16 then 0 else fidx))) in
   let st = ref rpc0 in
   let ops_out = ref [] and res_out = ref [] in
   List.iter (fun o ->
@@ -70,14 +71,18 @@ let run fidx ops =
       (* a mode b<n> gives the wait a budget of n refills (its time-out strikes after them); b<n> and B make the
          result carry #<number of arrivals read> like the harness's tiny-deadline operations *)
       let mode = match parts with
-        | ["wr"; _; m] | ["ws"; m] | ["wc"; m] | ["ro"; m] -> m
+        | ["wr"; _; m] | ["ws"; m] | ["wc"; m] | ["ro"; m] | ["tro"; m] -> m
         | _ -> "" in
       let counted = String.length mode > 0 && (mode.[0] = 'b' || mode = "B") in
       let budget = if String.length mode > 1 && mode.[0] = 'b'
         then nat_of_int (int_of_string (String.sub mode 1 (String.length mode - 1))) else big in
       let avail_before = List.length (!st).avail in
+      let filter = !filter_ref in
       if parts = ["nop"] then begin
         ops_out := o :: !ops_out; res_out := "T#0|" :: !res_out
+      end else if List.hd parts = "sf" then begin
+        filter_ref := filter_family (n_of_int (int_of_string (List.nth parts 1)));
+        ops_out := o :: !ops_out; res_out := "S|" :: !res_out
       end else
       let (op, arrival) = match parts with
         | ["a"; spec] -> let m = msg_of_spec spec in (Arrive m, Some m)
@@ -88,6 +93,8 @@ let run fidx ops =
         | "ws" :: _ -> (WaitSignal budget, None)
         | "wc" :: _ -> (WaitCall budget, None)
         | "ro" :: _ -> (RefillOnce, None)
+        (* try_refill_once is the one iteration refill_once's loop makes (Rpc.v: refill_once = refill_once_loop 1) *)
+        | "tro" :: _ -> (RefillOnce, None)
         | ["ra"] -> (RefillAll, None)
         | _ -> failwith ("bad op " ^ o) in
       let before = List.length (!st).wire in
@@ -102,6 +109,7 @@ let run fidx ops =
             | "ws" :: _ -> "ws:" ^ mode
             | "wc" :: _ -> "wc:" ^ mode
             | "ro" :: _ -> "ro:" ^ mode
+            | "tro" :: _ -> "tro:" ^ mode
             | _ -> o in
           let tok = match arrival with
             | Some m -> if filter m then "+" else "-"
